@@ -75,6 +75,16 @@ Theorem C05_delivered_value :
 Proof. exact delivered_value. Qed.
 Print Assumptions C05_delivered_value.
 
+(* A write whose transform fails to evaluate on the value (DIV(1, $) at 0 ...), or whose result cannot be coerced to the port
+   type, is refused with an error and never reaches the driver (what /repo does: 500 unexpected-error, value unchanged). *)
+Theorem C05_failing_transform_refused :
+  forall r d j v t,
+    j_py j = Some v -> p_transform d = Some t ->
+    (t v = TErr \/ exists x, t v = TVal x /\ coerce d x = None) ->
+    exists e, patch_value r (Some d) j = (Rejected e, []).
+Proof. exact failing_transform_refused. Qed.
+Print Assumptions C05_failing_transform_refused.
+
 (* an accepted write passed the validation and the port was enabled and writable; errors come in the code's order *)
 Theorem C05_accepted_checks :
   forall r p j, model_accepts r p j = true ->
